@@ -30,8 +30,24 @@ CHECKS = {
        "(incremental, cached); OrderIndependence is evaluated after every event over all nodes.",
   note="Trusted: hashes as oracles; ids/scores logged. Orders are sampled (seeded), the design-level invariant is exhaustive within bounds.",
   ref="5 C03/C04"),
+ "C13": dict(
+  technique="TLA+ spec of the import write sequence (ImportCrash.tla) model-checked over every crash cut with TLC + crash-cut enumeration on the real node, each run validated against Trace_ImportCrash.tla",
+  engine="crash", level="fault_enumeration",
+  text="ImportCrash.tla models one block import as its ordered durable writes (state tries, log-db transaction, index trie, block bulk incl. best "
+       "pointer, quality, finalized), crash between any two, restart (incl. log-db resync) and resumption; TLC checks BestComplete, StoredComplete, "
+       "LogsMatchBest, FinalityNotContradicting, FinMonotone and ResumeConverges over every cut (<= 2 crashes) of a forked 4-epoch stream. On the real "
+       "code a recording kv engine under muxdb makes a real node die before durable write k for EVERY k of seeded block streams (forks, store points, "
+       "transactions with logs; optionally a second crash while resuming); the node is restarted with thor's start-up sequence (genesis build, repository, "
+       "thor's own syncLogDB, bft engine), the best block is read completely (header, txs, receipts, number index, tx index, full walk of account and "
+       "storage tries compared with the uninterrupted node), the log db is compared with the canonical chain, and the stream is resumed and compared with "
+       "the uninterrupted node (best, qualities, finalized). Each run is also a trace that Trace_ImportCrash.tla must accept (write order, restart and end state).",
+  note="Trusted: a leveldb batch is atomic and batches are durable in issue order; a committed sqlite transaction is durable; crashes happen between kv writes. "
+       "Known finding F2 (quality of a store point lost between block bulk and quality write) is reported as KNOWN-FINDING by signature resume-diverges:q.",
+  ref="5 C13"),
 }
 ENGINES = [
+ dict(name="crash", path="specs/store/ImportCrash.tla + harness/cmd/crashcuts + checks/C13.py", serves_properties=["C13"],
+      kind_free_text="TLA+/TLC over all crash cuts + exhaustive cut enumeration on the real node with trace validation"),
  dict(name="bft", path="specs/bft + harness/cmd/bftsim + checks/bftcommon.py", serves_properties=["C03", "C04"],
       kind_free_text="TLA+/TLC exhaustive model + trace validation of real-code simulator runs"),
 ]
